@@ -26,7 +26,10 @@ import (
 
 // op is one operation of a history.
 type op struct {
-	// Kind: upd, adv, flush, restart, limit, clear, read.
+	// Kind: upd, adv, tick, flush, restart, limit, clear, read.
+	// tick: the hour turns WHILE a later operation is in progress - the next
+	// time the implementation looks at the clock it still sees the old hour,
+	// every later look (inside the same operation or after it) sees the next.
 	Kind string `json:"op"`
 	// upd: result category 1..5 (RNotFiltered, RFiltered, RSafeBrowsing,
 	// RSafeSearch, RParental), client, domain, with upstream statistics.
@@ -98,6 +101,9 @@ func alphabet(quick bool) []op {
 	)
 	ops = append(ops, op{Kind: "restart"})
 	ops = append(ops, op{Kind: "clear"})
+	// The hour turns in the middle of the next operation that looks at the
+	// clock (start-up, hourly flush, reset).
+	ops = append(ops, op{Kind: "tick"})
 	for _, h := range []uint32{1, 2, 3, 24, 192} {
 		ops = append(ops, op{Kind: "limit", Hours: h, Via: "put"})
 	}
@@ -126,6 +132,9 @@ type model struct {
 	hours map[uint32]*hourRec
 	// off: statistics are switched off; updates are not counted.
 	off bool
+	// armed: a "tick" is pending - the clock turns right after the next look
+	// at it.
+	armed bool
 }
 
 func newModel() *model {
@@ -173,10 +182,42 @@ func (m *model) apply(o op) {
 	case "clear":
 		m.hours = map[uint32]*hourRec{}
 		m.cur = m.clock
+	case "tick":
+		m.armed = true
 	case "read":
 	default:
 		panic("op " + o.Kind)
 	}
+	m.mark()
+}
+
+// ticked records that the armed turn of the hour happened during operation o:
+// the clock showed m.clock when the operation first looked at it and now shows
+// now.  If o processes a rollover (start-up, flush, reset), the hour it made
+// current is not determined by the statement - any hour the clock showed
+// during the operation is admissible - so it is taken from the implementation
+// (implCur, ok = there is a current unit) after checking that it is one of
+// them.  Counts are then required exactly as for any other current hour.
+func (m *model) ticked(o op, now uint32, implCur uint32, ok bool) (vkey, vdesc string) {
+	first := m.clock
+	m.clock = now
+	m.armed = false
+	switch o.Kind {
+	case "flush", "restart", "clear":
+		if !ok {
+			break
+		}
+		if implCur < first || implCur > now {
+			return "current-hour-not-on-clock", fmt.Sprintf("after %s, during which the clock went from %d to %d, the current unit is hour %d", o.label(), first, now, implCur)
+		}
+		m.cur = implCur
+		m.mark()
+	}
+	return "", ""
+}
+
+// mark flags the hours that lie outside the window now.
+func (m *model) mark() {
 	for h, r := range m.hours {
 		if h+m.limit <= m.cur {
 			r.maybe = true
@@ -203,6 +244,9 @@ func (m *model) sortedHours() []uint32 {
 func (m *model) String() string {
 	var sb strings.Builder
 	fmt.Fprintf(&sb, "clock=%d cur=%d limit=%dh off=%v", m.clock, m.cur, m.limit, m.off)
+	if m.armed {
+		sb.WriteString(" tick-armed")
+	}
 	for _, h := range m.sortedHours() {
 		r := m.hours[h]
 		fmt.Fprintf(&sb, " [%d(cur%+d):%v", h, int64(h)-int64(m.cur), r.n)
@@ -225,8 +269,10 @@ var discard = slog.New(slog.NewTextHandler(devNull{}, &slog.HandlerOptions{Level
 // sess is one real StatsCtx (plus its successors after restarts) on its own
 // temp dir with its own virtual hour.
 type sess struct {
-	dir      string
-	hour     atomic.Uint32
+	dir  string
+	hour atomic.Uint32
+	// armed: the hour turns right after the next reading of the clock.
+	armed    atomic.Bool
 	s        *stats.StatsCtx
 	handlers map[string]http.HandlerFunc
 	modified int
@@ -252,7 +298,13 @@ func newSess(tmp string) (x *sess, err error) {
 // registers the HTTP handlers as Start does (without the periodic flusher).
 func (x *sess) open(conf stats.Config) (err error) {
 	conf.Logger = discard
-	conf.UnitID = func() uint32 { return x.hour.Load() }
+	conf.UnitID = func() uint32 {
+		h := x.hour.Load()
+		if x.armed.CompareAndSwap(true, false) {
+			x.hour.Add(1)
+		}
+		return h
+	}
 	conf.ConfigModified = func() { x.modified++ }
 	conf.ShouldCountClient = func([]string) bool { return true }
 	conf.Filename = filepath.Join(x.dir, "stats.db")
@@ -343,6 +395,8 @@ func (x *sess) apply(o op, m *model) (err error) {
 		if code != http.StatusOK {
 			return fmt.Errorf("stats_reset: HTTP %d %s", code, body)
 		}
+	case "tick":
+		x.armed.Store(true)
 	case "read":
 		// The read itself is done (and checked) by exec after every operation.
 		if code, body := x.call(http.MethodGet, "/control/stats", ""); code != http.StatusOK {
@@ -645,6 +699,20 @@ func execOps(hist []op) (st lib.Step) {
 	for i, o := range hist {
 		err = x.apply(o, m)
 		m.apply(o)
+		if now := x.hour.Load(); err == nil && now != m.clock {
+			// The armed turn of the hour happened inside this operation.
+			var implCur uint32
+			hasCur := false
+			if d, derr := stats.VerifDump(x.s); derr == nil && d.HasCurr {
+				implCur, hasCur = d.Curr.ID, true
+			}
+			if vkey, vdesc := m.ticked(o, now, implCur, hasCur); vkey != "" {
+				return fail(vkey, "%s", vdesc)
+			}
+			if i == len(hist)-1 {
+				c.Count("hour_turned_inside_"+o.Kind, 1)
+			}
+		}
 		switch o.Kind {
 		case "restart":
 			restartedInHour = m.hours[m.cur] != nil
